@@ -234,6 +234,59 @@ def compressed_cut_cases(ctx):
                 extra=dict(exhaustive=True, cut_cases=len(cases)))
 
 
+READER_CUT_RULE = ("C17 reader resume: real kafka.Reader (partition mode) on harness/fetchfake reads a whole log (10..30 records, uncompressed v2 / compressed v2 / "
+                   "v1 message sets incl. compressed wrappers, 1..4 records per batch, several batches per response, fetch v2/v5/v10, default start or SetOffset at a record); "
+                   "the ONLY fault: 1..3 fetch responses are delivered up to byte k and the connection is lost, k inside the size prefix, the response header, "
+                   "the partition header, a batch header, between batches, between records, inside a record, inside a compressed batch, or after the last complete record "
+                   "of a response that Kafka truncated inside a record; predicate on the real Reader's output: FetchMessage returns exactly the stored records from the "
+                   "start offset, each once, in order, all of them, within the watchdog; plus the replay of the journal on the model (delivered sequence, Reader.Offset()/Lag())")
+
+
+def reader_cut_cases(ctx):
+    """Reader half of C17: resume after a cut fetch response without losing, duplicating or
+    reordering records.  Same dict shape as compressed_cut_cases."""
+    cases, res = _run_harness(ctx, ["-only", "readercut", "-n", str(ctx.scale(200, 2000))], timeout=900)
+    failures, seen = [], {}
+    def add(c, m, layer, what, with_input=True):
+        k = what
+        seen[k] = seen.get(k, 0) + 1
+        if seen[k] > 1:
+            return
+        f = dict(layer=layer, what="C17 reader resume after a cut response: " + what, _k=k,
+                 detail=json.dumps(dict(case=(c["op"] + " " + c["args"])[:1500], go=c["go"][:400], model=str(m)[:400], feats=c["feats"])))
+        f["input"] = dict(case=c["op"] + " " + c["args"], go=c["go"], model=m, feats=c["feats"]) if with_input else None
+        failures.append(f)
+    for c in cases:
+        m = res.get(c["id"])
+        feats = c["feats"].split(",")
+        if c["go"].startswith("HANG"):
+            add(c, m, "property", "the Reader did not deliver the stored records within the watchdog (scenario hung)")
+            continue
+        parts = (m or "").split(";")
+        if len(parts) != 3:
+            add(c, m, "correspondence", "model driver failed on the journal: " + str(m)[:160], with_input=False)
+            continue
+        delivered, prop, problems = parts
+        if prop != "prop-ok":
+            add(c, m, "property", "FetchMessage returned a sequence that is not the stored records from the start offset, each once, in order (a record lost, duplicated or reordered)")
+        elif "incomplete" in feats:
+            add(c, m, "property", "the Reader stopped before it had delivered all stored records (watchdog / no further fetch)")
+        if delivered != e2e_expected(c) or problems != "ok":
+            if prop != "prop-ok":
+                pass        # already reported above with the input
+            elif any(p.split(" ")[0] in ("OFFSET", "LAG") for p in problems.split("+")):
+                add(c, m, "property", "Reader.Offset() / Reader.Lag() after a call is not one past the last message returned")
+            else:
+                kinds = sorted(set(p.split(" ")[0] for p in problems.split("+"))) if problems != "ok" else ["RETURNS"]
+                add(c, m, "correspondence", "the model's replay of the journal differs from the real Reader (" + ",".join(kinds) + ") although the delivery predicate holds", with_input=False)
+    for f in failures:
+        f["what"] += " [%d case(s)]" % seen[f.pop("_k")]
+    ev, dn, hist = L.coverage_counts(cases, trivial_feats=("",))
+    samples = [(c["op"] + " " + c["args"])[:260] + " | " + c["go"][:120] + " | " + c["feats"] for c in (cases[:2] + cases[len(cases)//2:len(cases)//2+2] + cases[-2:])]
+    return dict(evaluations=ev, distinct_nontrivial=dn, hist=hist, rule=READER_CUT_RULE, samples=samples, failures=failures, notes=[],
+                extra=dict(reader_cut_scenarios=len(cases)))
+
+
 def search(ctx, violations):
     from checks import c10
     c10.annotate_skeleton_failure(ctx, violations, "SkeletonReader", "reader_assumptions", "Model/Lifecycle.v / GroupReader.v / ReaderModel.v", "reader.go")
